@@ -317,15 +317,45 @@ def run(ctx) -> None:
     # ---------------------------------------------------------------- R6
     r.rule("C11.R6", "filters are applied by SigmaCollection.__post_init__ unless collect_filters; load_ruleset collects per file (collect_filters=True) and the merged collection applies them once")
     pi = prog.func("sigma.collection.SigmaCollection.__post_init__")
-    calls = [c for c in walk_no_nested(pi.node) if isinstance(c, ast.Call) and call_name(c) == "self.apply_filters"]
-    if len(calls) == 1:
-        gs = atomic_guards(guards_at(prog, pi, calls[0]))
-        if ("collect_filters", False) in gs and ("self.filters", True) in gs:
-            r.ok("C11.R6", pi.qual, "apply_filters(self.filters) iff filters present and not collect_filters", f"{pi.module.relpath}:{calls[0].lineno}")
-        else:
-            r.violation("C11.R6", pi.qual, short(calls[0]), f"filters applied under {gs}; expected: filters present and not collect_filters", f"{pi.module.relpath}:{calls[0].lineno}")
+    # __post_init__ interpreted (sa.tabulate, Proxy) on stand-in rules and filters, with the two switches in all positions
+    from ..tabulate import Proxy as _P6a, call_method as _cm6a, Raised as _R6a
+
+    class _Obj:
+        def __init__(self, n): self.n, self.id, self.name = n, "id-" + n, n
+        def __repr__(self): return self.n
+    class SigmaRule(_Obj): pass
+    class SigmaCorrelationRule(_Obj): pass
+    class SigmaFilter(_Obj): pass
+    env6a = {"SigmaRule": SigmaRule, "SigmaCorrelationRule": SigmaCorrelationRule, "SigmaFilter": SigmaFilter}
+    SC = "sigma.collection.SigmaCollection"
+    bad6 = None
+    for given_filters in (0, 1, 2):
+        for collect in (False, True):
+            for resolve in (True, False):
+                flts = [SigmaFilter(f"f{i}") for i in range(given_filters)]
+                init = [SigmaRule("r1")] + flts[:1] + [SigmaCorrelationRule("c1")] + flts[1:]
+                log = []
+                me = _P6a(prog, SC, env6a, {"rules": [], "filters": [], "errors": [],
+                                            "apply_filters": lambda fs, _l=log: _l.append(("apply_filters", list(fs))),
+                                            "resolve_rule_references": lambda _l=log: _l.append(("resolve",))}, interp_kwargs={"max_steps": 6000})
+                try:
+                    _cm6a(prog, SC, "__post_init__", me, env6a, init, collect, resolve, interp_kwargs={"max_steps": 6000})
+                except _R6a as ex:
+                    bad6 = f"raises {ex} ({given_filters} filters, collect_filters={collect})"
+                    break
+                want_log = ([("apply_filters", flts)] if flts and not collect else []) + ([("resolve",)] if resolve else [])
+                if log != want_log:
+                    bad6 = f"{given_filters} filter(s), collect_filters={collect}, resolve_references={resolve}: {log} instead of {want_log}"
+                elif [x.n for x in me.rules] != ["r1", "c1"] or list(me.filters) != flts:
+                    bad6 = f"the collection holds rules {me.rules} and filters {me.filters} for the objects {init}"
+            if bad6:
+                break
+        if bad6:
+            break
+    if bad6 is None:
+        r.ok("C11.R6", pi.qual, "apply_filters(all filters given) exactly once iff filters are present and not collect_filters, before references are resolved (interpreted over 12 configurations)", pi.loc)
     else:
-        r.violation("C11.R6", pi.qual, "self.apply_filters(self.filters)", f"{len(calls)} apply_filters calls in __post_init__ (exactly one expected)", pi.loc)
+        r.violation("C11.R6", pi.qual, "self.apply_filters(self.filters)", f"filters applied under other conditions than: filters present and not collect_filters — {bad6}", pi.loc)
     af = prog.func("sigma.collection.SigmaCollection.apply_filters")
     # apply_filters interpreted (sa.tabulate, Proxy) on a stand-in collection: three rules (one of them a correlation rule), two filters
     from functools import reduce as _reduce
